@@ -9,10 +9,15 @@ import (
 	"regexp"
 	"sort"
 	"strings"
+	"syscall"
 	"testing"
 	"time"
 
 	"github.com/php-any/origami/data"
+	"github.com/php-any/origami/parser"
+	"github.com/php-any/origami/runtime"
+	"github.com/php-any/origami/std"
+	"github.com/php-any/origami/std/php"
 	"pgregory.net/rapid"
 	"verifharness/pgen"
 	"verifharness/sb"
@@ -35,6 +40,10 @@ func init() {
 type seqCfg struct {
 	Scripts []string `json:"scripts"`
 	Loads   string   `json:"loads"`
+	// Entry: run each script the way an embedding host does: a brand-new parser + VM, vm.LoadAndRun(file),
+	// the parser's own diagnostic printer, nothing reset by the harness; stdout through data.WriteOutput,
+	// the process's stderr captured around each script
+	Entry bool `json:"entry,omitempty"`
 }
 
 type seqOut struct {
@@ -48,6 +57,15 @@ func seqHandler(req *sb.Req) *sb.Rep {
 	}
 	defer func() { data.WriteOutput = data.DefaultOutputWriter }()
 	var out seqOut
+	if cfg.Entry {
+		for i, src := range cfg.Scripts {
+			path := filepath.Join(sb.WorkerTmp, fmt.Sprintf("entry_%d.php", i))
+			os.WriteFile(path, []byte(src), 0o644)
+			out.Outs = append(out.Outs, strings.ReplaceAll(runEntry(path), sb.WorkerTmp, "<tmp>"))
+		}
+		b, _ := json.Marshal(&out)
+		return &sb.Rep{Outcome: sb.OK, Data: b}
+	}
 	for i, src := range cfg.Scripts {
 		e := sb.NewScriptEnv(cfg.Loads)
 		path := filepath.Join(sb.WorkerTmp, fmt.Sprintf("seq_%d.php", i))
@@ -85,6 +103,64 @@ func seqHandler(req *sb.Req) *sb.Rep {
 	}
 	b, _ := json.Marshal(&out)
 	return &sb.Rep{Outcome: sb.OK, Data: b}
+}
+
+// runEntry runs one file on a fresh VM through the production entry point and returns stdout plus
+// whatever the run wrote to the process's stderr.
+func runEntry(path string) (res string) {
+	var stdout strings.Builder
+	data.WriteOutput = func(s string) {
+		if stdout.Len() < 1<<20 {
+			stdout.WriteString(s)
+		}
+	}
+	errFile, err := os.CreateTemp(sb.WorkerTmp, "stderr-")
+	if err != nil {
+		return "[[infra: " + err.Error() + "]]"
+	}
+	defer os.Remove(errFile.Name())
+	saved, _ := syscall.Dup(2)
+	syscall.Dup2(int(errFile.Fd()), 2)
+	restore := func() string {
+		syscall.Dup2(saved, 2)
+		syscall.Close(saved)
+		errFile.Close()
+		b, _ := os.ReadFile(errFile.Name())
+		return string(b)
+	}
+	defer func() {
+		if r := recover(); r != nil {
+			msg := fmt.Sprint(r)
+			if c, ok := r.(data.Control); ok {
+				msg = c.AsString()
+			}
+			res = stdout.String() + "\n[[stderr: " + restore() + "]]\n[[go-panic: " + clip(firstLine(msg), 200) + "]]"
+		}
+	}()
+	p := parser.NewParser()
+	vm := runtime.NewVM(p)
+	std.Load(vm)
+	php.Load(vm)
+	_, c := vm.LoadAndRun(path)
+	if c != nil {
+		p.ShowControl(c)
+	}
+	if data.FlushAllBuffersFn != nil {
+		data.FlushAllBuffersFn()
+	}
+	se := restore()
+	return stdout.String() + "\n[[stderr: " + se + "]]"
+}
+
+func seqRunEntry(pool *sb.Pool, scripts []string) ([]string, *sb.Rep) {
+	b, _ := json.Marshal(seqCfg{Scripts: scripts, Entry: true})
+	rep := pool.Exec(&sb.Req{Kind: "seq", Data: b, DeadlineMs: 60000})
+	if rep.Outcome != sb.OK {
+		return nil, &rep
+	}
+	var out seqOut
+	json.Unmarshal(rep.Data, &out)
+	return out.Outs, &rep
 }
 
 // ---- class / enumeration-order programs ----
@@ -336,6 +412,11 @@ var residueB = []string{
 	"<?php\ntry { throw new Exception('boom'); } catch (Exception $e) { echo 'caught:', $e->getMessage(), \"\\n\"; }\n",
 	"<?php\necho isset($_GET['leak']) ? 'get-leaked' : 'no-get', ',', isset($_POST['leak']) ? 'post-leaked' : 'no-post', ',', isset($_SERVER['LEAK']) ? 'server-leaked' : 'no-server', \"\\n\";\n",
 	"<?php\nfunction shared_fn() { return 'B-version'; }\nclass Dup { function who() { return 'B'; } }\necho shared_fn(), (new Dup())->who(), \"\\n\";\n",
+	// programs that end in a diagnostic before printing anything: the diagnostic text must not depend on what ran earlier
+	"<?php\nabstract class AbB { abstract function m(); }\n$x = new AbB();\n",
+	"<?php\nundefined_function_in_b();\n",
+	"<?php\nthrow new Exception('uncaught-in-B');\n",
+	"<?php\n$x = 1 % 0;\n",
 }
 
 type c20Case struct {
@@ -488,6 +569,16 @@ func TestC20(t *testing.T) {
 					rec.Fail(fmt.Sprintf("cell:residue:A%d:crash", ai), fmt.Sprintf("running A%d then B%d: %s %s", ai, bi, rep.Outcome, clip(rep.Msg, 200)), c20Case{Kind: "residue", A: a, Src: b})
 				}
 				continue
+			}
+			// the same pair through the production entry point (fresh parser + VM, vm.LoadAndRun, the
+			// parser's diagnostic printer; stdout and stderr compared)
+			if abE, _ := seqRunEntry(pool, []string{a, b}); abE != nil {
+				if aloneE, _ := seqRunEntry(pool, []string{b}); aloneE != nil {
+					rec.EvalN(3)
+					if normOut(abE[1]) != normOut(aloneE[0]) {
+						rec.Fail(fmt.Sprintf("cell:residue-entry:A%d->B%d", ai, bi), fmt.Sprintf("through vm.LoadAndRun on fresh VMs, program B%d gives %q after A%d ran earlier in the process, but %q when run first\nA:\n%s\nB:\n%s", bi, clip(abE[1], 400), ai, clip(aloneE[0], 400), a, b), c20Case{Kind: "residue-entry", A: a, Src: b})
+					}
+				}
 			}
 			if ab[1] != alone[0] {
 				rec.Fail(fmt.Sprintf("cell:residue:A%d->B%d", ai, bi), fmt.Sprintf("program B%d prints %q after A%d ran on another VM in the same process, but %q when run first\nA:\n%s\nB:\n%s", bi, clip(ab[1], 300), ai, clip(alone[0], 300), a, b), c20Case{Kind: "residue", A: a, Src: b})
